@@ -5,6 +5,7 @@ import (
 	"bytes"
 	"encoding/hex"
 	"fmt"
+	"sync"
 	"testing"
 
 	"github.com/jcmturner/gokrb5/v8/crypto"
@@ -142,6 +143,54 @@ func eval1(c Case) evid.Verdict {
 			if bytes.Equal(f1, make([]byte, len(f1))) {
 				return evid.Fail("confounder:"+fmt.Sprint(c.EType), "all-zero confounder")
 			}
+		case "fresh-concurrent":
+			// 8 goroutines encrypt the same plaintext under the same key and usage at the same time: every
+			// message must still get its own random confounder
+			et, err := crypto.GetEtype(c.EType)
+			if err != nil {
+				return evid.Fail(sig, "GetEtype: %v", err)
+			}
+			const G, M = 8, 400
+			out := make([][][]byte, G)
+			var wg sync.WaitGroup
+			start := make(chan struct{})
+			for g := 0; g < G; g++ {
+				wg.Add(1)
+				go func(g int) {
+					defer wg.Done()
+					<-start
+					for i := 0; i < M; i++ {
+						_, ct, err := et.EncryptMessage(key, plain, c.Usage)
+						if err != nil {
+							return
+						}
+						out[g] = append(out[g], ct)
+					}
+				}(g)
+			}
+			close(start)
+			wg.Wait()
+			seen := map[string]bool{}
+			n := 0
+			for g := range out {
+				for _, ct := range out[g] {
+					n++
+					if seen[string(ct)] {
+						return evid.Fail("confounder-concurrent:"+fmt.Sprint(c.EType), "two of %d messages encrypted concurrently (same key, usage and plaintext) are byte-identical: a confounder was used twice", n)
+					}
+					seen[string(ct)] = true
+				}
+			}
+			if n != G*M {
+				return evid.Fail(sig, "only %d of %d concurrent encryptions succeeded", n, G*M)
+			}
+			// a sample must still interoperate
+			for g := 0; g < G; g++ {
+				got, _, err := ref.Decrypt(c.EType, key, c.Usage, out[g][M-1])
+				if err != nil || !bytes.Equal(got, want) {
+					return evid.Fail(sig, "reference cannot decrypt a concurrently encrypted message: %v", err)
+				}
+			}
 		default:
 			return evid.Fail("harness", "bad dir %q", c.Dir)
 		}
@@ -246,6 +295,16 @@ func TestProp(t *testing.T) {
 			}
 		}
 	})
+	r.Rule("fresh-concurrent: for every etype, 8 goroutines x 400 encryptions of the same (key, usage, plaintext) at once: all 3200 ciphertexts distinct and decryptable by the reference")
+	for _, et := range ref.ETypes {
+		for k := 0; k < r.N(1, 6); k++ {
+			lbl := fmt.Sprintf("c05/conc/%d/%d", et, k)
+			c := Case{EType: et, Usage: kgen.Usages[(k*5+int(r.Seed()))%len(kgen.Usages)], Dir: "fresh-concurrent",
+				Key: hex.EncodeToString(ref.RandomKey(et, kgen.DetBytes(r.Seed(), lbl+"/k", 32))), Plain: hex.EncodeToString(kgen.DetBytes(r.Seed(), lbl+"/p", 5+k*16))}
+			count(r, c)
+			r.Violation("grid", c, Eval(c))
+		}
+	}
 	if r.Thorough() {
 		r.Exhaustive("etype x length 0..130 x usage set x direction (keys/contents sampled)")
 	}
